@@ -709,12 +709,19 @@ class Streams:
         self.run.corr_failures.append({"stream": stream, "case": info, "impl": obs, "model": "outcome outside the model's alphabet"})
 
     def evaluate(self, diag):
+        """all streams are evaluated at the same time (each coq_cases call waits for its own coqc processes)"""
+        from concurrent.futures import ThreadPoolExecutor
         run = self.run
-        for stream, lst in sorted(self.s.items()):
-            if not lst:
-                continue
-            bad = run.coq_cases(stream, IMPORTS, "", [t for t, _ in lst], "check_" + stream,
-                                shard={"dp": 20, "hp": 60, "gi": 150}.get(stream, 200), case_type=CASE_TYPE[stream])
+        items = [(stream, lst) for stream, lst in sorted(self.s.items()) if lst]
+
+        def one(item):
+            stream, lst = item
+            return run.coq_cases(stream, IMPORTS, "", [t for t, _ in lst], "check_" + stream,
+                                 shard={"dp": 20, "hp": 60, "gi": 150}.get(stream, 200), case_type=CASE_TYPE[stream])
+        with ThreadPoolExecutor(max_workers=3) as ex:
+            results = list(ex.map(one, items))
+        run.cov["disagreements"] = sum(v.get("disagreements", 0) for v in run.cov["streams"].values())
+        for (stream, lst), bad in zip(items, results):
             if bad is None:
                 run.proof_ok = False
                 continue
